@@ -558,6 +558,20 @@ pub enum Note<'data> {
     Unknown(NoteAny<'data>),
 }
 
+
+pub proof fn lemma_le_bound(s: Seq<u8>) ensures le_val(s) < pow256(s.len()) decreases s.len() {
+    if s.len() > 0 { lemma_le_bound(s.drop_first()); }
+}
+pub proof fn lemma_be_bound(s: Seq<u8>) ensures be_val(s) < pow256(s.len()) decreases s.len() {
+    if s.len() > 0 { lemma_be_bound(s.drop_last()); }
+}
+pub proof fn lemma_pow256_small() ensures pow256(4) == 0x1_0000_0000 { reveal_with_fuel(pow256, 5); }
+pub proof fn lemma_fld4_bound(l: bool, s: Seq<u8>, off: int)
+    requires 0 <= off, off + 4 <= s.len()
+    ensures uval(l, s.subrange(off, off + 4)) <= u32::MAX
+{
+    lemma_le_bound(s.subrange(off, off + 4)); lemma_be_bound(s.subrange(off, off + 4)); lemma_pow256_small();
+}
 pub open spec fn pad(off: int, align: int) -> int { if off % align > 0 { off + (align - off % align) } else { off } }
 pub open spec fn n_namesz(l: bool, d: Seq<u8>, off: int) -> int { fld(l, d, off, 4) as int }
 pub open spec fn n_descsz(l: bool, d: Seq<u8>, off: int) -> int { fld(l, d, off + 4, 4) as int }
@@ -603,7 +617,7 @@ impl<'data> Note<'data> {
 
         proof {
             let l = endian.spec_is_little(); let d = data@; let off = *old(offset) as int;
-            assume(nhdr.n_namesz == n_namesz(l, d, off) && nhdr.n_descsz == n_descsz(l, d, off) && nhdr.n_type == n_type(l, d, off));
+            lemma_fld4_bound(l, d, off); lemma_fld4_bound(l, d, off + 4); lemma_fld4_bound(l, d, off + 8);
         }
         let name_start = *offset;
         let name_size: usize = nhdr.n_namesz.try_into()?;
